@@ -195,7 +195,9 @@ def verdict(prop, wl, tier, seed, results, t0, total, nshards):
     for m, n in deciding.items():
         if n == 0:
             reasons.append(f"deciding monitor {m} never evaluated")
-    missing = [a for a in wl.ANCHORS if a not in entered]
+    # anchors are matched on the qualified name only: moving code to another module is not a reason to doubt a run
+    entered_names = {e.split(":", 1)[1] for e in entered if ":" in e}
+    missing = [a for a in wl.ANCHORS if a.split(":", 1)[1] not in entered_names]
     # private helpers and local handler functions may be renamed or inlined by a harmless refactoring: their absence is
     # reported in the evidence but only a *public* anchored function that was never entered makes the run inconclusive
     hard_missing = [a for a in missing if not _is_private_anchor(a)]
@@ -240,7 +242,7 @@ def verdict(prop, wl, tier, seed, results, t0, total, nshards):
             "out_of_domain": {k[4:]: v for k, v in sorted(counters.items()) if k.startswith("ood:")},
             "calls_observed": {k[6:]: v for k, v in sorted(counters.items()) if k.startswith("calls:")},
             "workload": {k[3:]: v for k, v in sorted(counters.items()) if k.startswith("wl:")},
-            "anchors_entered": sorted(a for a in wl.ANCHORS if a in entered),
+            "anchors_entered": sorted(a for a in wl.ANCHORS if a not in missing),
             "anchors_missing": missing,
             "shards": [{"shard": r.get("shard"), "PYTHONHASHSEED": r.get("hashseed"), "cases": r.get("cases"), "wall_s": r.get("wall_s")} for r in results],
             "known_findings_seen": {f"{p}:{m}": n for (p, m), n in known_seen.items()},
